@@ -190,6 +190,7 @@ func c27(r *core.Run) {
 		}
 	}
 	c27Helpers(r)
+	deleteAtIndexLint(r, "C27.L1", "a skipped or expired entry stays in the list when it directly follows another removed entry", "pkg/routetab")
 }
 
 func c28(r *core.Run) {
@@ -450,6 +451,7 @@ func c28(r *core.Run) {
 		r.Check("C28.G2", core.Key("C28.G2", fn, "forwarded paths are re-generated"), fn.Pos(), len(gens) >= 2,
 			"both the forwarded and the fresh request carry paths extended by generatePaths", "doRouteReq no longer passes request paths through generatePaths")
 	}
+	deleteAtIndexLint(r, "C28.L1", "a next hop that is on the relay path (in the skip list) survives the filtering when it directly follows another skipped hop, and the relayed stream is sent back onto its own path", "pkg/routetab")
 }
 
 // loopHeader returns the header of the innermost natural loop containing b (nil if none).
